@@ -1,7 +1,7 @@
 """C39 -- OpenSSH private keys round-trip with ssh-keygen and are internally consistent.
 
 Spec: spec/OpenSSHKey.tla (+ _MC): the container and the accept decision of parseOpenSSHPrivateKey (checks in the order
-of the code) over writer x key type x cipher x calling mode (no / right / wrong passphrase) x 33 corruption classes;
+of the code) over writer x key type x cipher x calling mode (no / right / wrong passphrase) x 36 corruption classes;
 TLC checks PristineParses, WrongPassphrase, MissingPassphrase and that everything accepted is consistent
 (AcceptOnlyConsistent; the parser before fix 189504f survives as OpenSSHKey_Doc.cfg, FixConsistency = FALSE, an expected counterexample).
 Binding R builds every case from real files (MarshalPrivateKey(WithPassphrase), ssh-keygen), corrupts them with an
